@@ -146,7 +146,14 @@ pub fn run(env: &Env) -> i32 {
     };
     let rep = Report::new(env, def.level);
     if replay_corpus(env, &def, &rep) {
-        (def.run)(env, &rep);
+        if std::env::var("SV_ONLY_FUZZ").is_err() {
+            (def.run)(env, &rep);
+        }
+        // thorough tier: bounded coverage-guided campaigns on top of the generated checks
+        if env.tier == crate::core::Tier::Thorough && std::env::var("SV_NO_FUZZ").is_err() {
+            let runs = std::env::var("SV_FUZZ_RUNS").ok().and_then(|v| v.parse().ok()).unwrap_or(3_000_000u64);
+            crate::fuzz::campaign(env, &rep, runs);
+        }
     }
     rep.finish()
 }
